@@ -44,7 +44,7 @@ OPS = [k for k in go.ALL_OPS if k != "step"]
 
 
 def generate(R: Draw, tier: str) -> dict:
-    how = R.weighted([("genuine", 3), ("transplanted", 2), ("perturbed", 5), ("random", 3), ("mark-focus", 2)])
+    how = R.weighted([("genuine", 3), ("transplanted", 2), ("perturbed", 5), ("random", 3), ("mark-focus", 2), ("reopen-focus", 2)])
     if how == "mark-focus":
         sref = R.choice(["big_small", "remark_user", "asym_chain"])
         if R.bool(0.8):
@@ -70,6 +70,23 @@ def generate(R: Draw, tier: str) -> dict:
                 desc = {"k": "addMark", "from": op["from"], "to": op["to"], "mark": op["mark"]}
             else:
                 desc = {"k": "addNodeMark", "pos": min(n, op["from"] + 2) if R.bool(0.3) else op["from"], "mark": op["mark"]}
+    if how == "reopen-focus":
+        # a genuine wrap step re-spelled with its parent open on one side (wrappers below the open depth), then one
+        # wrapper type swapped or another field moved: the payload the gap lands in must still be checked
+        for _ in range(4):
+            node = P.build(lib, doc)
+            op = go.gen_op(R, g, lib, node, ["wrap"], steer=1.0)
+            tr, _ = go.run_history(lib, node, [op])
+            if tr.steps:
+                d0 = gs.describe_step(tr.steps[0])
+                ro = gs.reopen_wrap_step(R, g, P.plain(tr.docs[0]), d0) if d0["k"] == "around" else None
+                if ro is not None:
+                    doc = P.plain(tr.docs[0])
+                    n = P.size_of(doc["c"], rs.leaf_types)
+                    desc = gs.perturb_step(R, g, ro, n, force="wrapper" if R.bool(0.6) else None) if R.bool(0.85) else ro
+                    break
+            doc = g.doc(R, R.weighted([("small", 5), ("medium", 2)]))
+            n = P.size_of(doc["c"], rs.leaf_types)
     if how in ("genuine", "perturbed"):
         node = P.build(lib, doc)
         # structure-changing operations are where ReplaceAround steps come from
